@@ -5,20 +5,15 @@ from pathlib import Path
 
 ROOT = Path(__file__).resolve().parent.parent
 
-CHECKS = {
- "C05": dict(
-  technique="Lean 4 theorems on models of CSelectedOutput and of the punch routing; op-sequence and PHRQ_io event-trace correspondence with the real code",
-  text="Theorems (Properties/C05.lean, Properties/Route.lean): table invariant for every op sequence, Get contract incl. out-of-range, late-column padding, last-write-wins, file=string for every event trace, disabled sink empty, tables switch-independent, getline line model. Tie: random op sequences on the real CSelectedOutput and recorded PHRQ_io event traces of real runs replayed through the model; direct oracle on the object's own views.",
-  note="Trusted: Lean kernel, harness/ph_selout.cpp, harness/ph_trace.cpp (event recording through virtual PHRQ_io methods), tools/tracelib.py. Rendering of values (printf formats) is a parameter of the model, re-rendered by vsnprintf in the harness. Known findings: switch of current user number; SELECTED_OUTPUT redefinition within a call."),
- "C13": dict(
-  technique="Lean 4: decide over wrapper tables regenerated from the C/Fortran glue sources, registry and settings-store theorems; op-sequence correspondence through the three bindings",
-  text="Theorems (Properties/C13.lean, C13Store.lean): all 73 C wrappers and 68 Fortran glue functions regenerated from the current source have the documented forwarding shape (method, argument order, bool conversion, result-code translation, invalid-instance result, 1-based shifts, padding, heading-row subtraction); bind(C) names/arity of the .F90 module match; padfstring contract; ids strictly increasing and never reused for every history; dead/negative/unissued ids change nothing; double destroy; per-instance isolation; set/get store laws and defaults. Tie: translator re-run every check + random (quick) and exhaustive length<=4 (thorough) call sequences through C API, C++ object and F functions vs pmodel api; cell-by-cell accessor agreement after a real run.",
-  note="Trusted: gen_api.py regex extraction (fails closed on unrecognised functions; callback setters are outside the table), harness/ph_api.cpp. No Fortran compiler: the .F90 module is checked textually; the F functions are called from C++."),
- "C09": dict(
-  technique="Lean 4 theorems on the message-routing model (file = string, disabled sink empty, getline lines, error file contains error string); event-trace correspondence over switch configurations",
-  text="Theorems (Properties/Route.lean) hold for every event trace and switch state. Tie: every call's recorded PHRQ_io event stream replayed through the model, all views (strings, line accessors incl. out-of-range, files read back from disk) compared, over sampled (quick) or all (thorough) switch combinations with switch changes between consecutive calls; paired runs compare value tables across configurations.",
-  note="Trusted: as C05. Dump stream has no PHRQ_io events: dump file vs dump string is a direct oracle only. 'Switches never change computed results' is exploration (paired runs), not a theorem."),
-}
+import importlib
+import sys
+sys.path.insert(0, str(ROOT / "tools"))
+
+CHECKS = {}
+for f in sorted((ROOT / "tools" / "props").glob("c[0-9][0-9].py")):
+    mod = importlib.import_module("props." + f.stem)
+    if hasattr(mod, "MANIFEST"):
+        CHECKS[f.stem.upper()] = mod.MANIFEST
 
 def entry(pid, c):
     return {
